@@ -1,14 +1,21 @@
-import DepLogic.Model.SpecText
-import DepLogic.Proofs.SpecTheorems
+import DepLogic.Properties.C16
+import DepLogic.Proofs.RenderLemmas
 /-
   C06 — specifier text round trip (token level).
 
-  `C06_full` is the property as stated.  It is false of the current code: a range
-  `[X.Y, (X+1).0.postN)` is rendered `~=X.Y` (`postrelease_counterexample`; the behaviour is pinned
-  by the repository's own test-suite, so it is a recorded known finding, not repaired).
-  Proved so far (`_partial`): every range rendered without the `~=` heuristic re-parses to an
-  equal range.  The `~=`, `!=V`, `!=X.*` and `||` forms are covered by the differential streams
-  (DESIGN.md section 6/C06).
+  `RoundTrips s`: the clause structure `str(s)` denotes re-parses (through `_from_pkg_specifier`,
+  `from_specifierset`, the `||` fold) to an object `==` to `s`, both ways round.
+  Proved: `empty_roundtrip`, `any_roundtrip`, `range_roundtrip` (every rendering of a range: cached
+  clause, `<=V`/`>V`/`==V`, `>=A,<B`, and the `~=` heuristic — `compat_render`: when `~=A` is chosen
+  for `[A, B)` with `B` a final release, `B` IS the next series of `A`), `union_roundtrip`
+  (cached clause, `!=V`, `!=X.*` — `wild_render` —, and the `||`-joined form, by uniqueness of
+  canonical forms over cuts), `roundtrips` (every canonical object).
+  The property as stated is false of the code for `[X.Y, (X+1).0.postN)`, rendered `~=X.Y`
+  (`postrelease_counterexample`; pinned by the repository's own test-suite: known finding D4a), so
+  the theorems carry the hypothesis `NoD4a` (a `~=` rendering only with a post-free upper bound).
+  `TextOk`: a cached clause text, if present, parses to the object — true of everything the parser
+  and the operators build (they cache only the clause just parsed, or nothing).
+  Outside the model: characters <-> clauses (packaging's `str(Version)` / `Specifier` parsing).
 -/
 namespace DepLogic
 namespace C06
@@ -122,6 +129,252 @@ theorem postrelease_counterexample : Range.WF pr ∧ ¬ RoundTrips (.range pr) :
   cases h1
   revert h2
   decide
+
+/-! ### every rendering of a range -/
+
+/-- a cached clause, if any, parses back to the range -/
+def TextOk (r : Range Ver) : Prop :=
+  ∀ c, r.text = some c → ∃ x, fromClause c = some (.range x) ∧ x.beq r = true
+
+/-- the `~=` heuristic is only applied with a post-free upper bound (excludes known finding D4a) -/
+def NoD4a (r : Range Ver) : Prop :=
+  r.text = none → ∀ mn mx, r.min = some mn → r.max = some mx → compatForm mn mx = true → mx.post = none
+
+theorem range_roundtrip (r : Range Ver) (h : r.WF) (ht : TextOk r) (hd : NoD4a r) : RoundTrips (.range r) := by
+  have rf := @LinPre.le_refl Ver _
+  cases htx : r.text with
+  | some c =>
+    obtain ⟨x, hx, hb⟩ := ht c htx
+    refine ⟨.range x, ?_, hb, by rw [C16.beq_symm]; exact hb⟩
+    simp only [Spec.str, Range.strClauses, htx, parse_one_alt]
+    exact fss_single c x hx
+  | none =>
+    by_cases hc : ∃ a b, r.min = some a ∧ r.max = some b ∧ ¬ eqv a b ∧ r.incMin = true ∧ r.incMax = false ∧
+        compatForm a b = true
+    · obtain ⟨a, b, hmin, hmax, hab, himin, himax, hcf⟩ := hc
+      obtain ⟨nx, hnx, hev⟩ := compat_render a b hcf (hd htx a b hmin hmax hcf)
+      have hstr : r.strClauses = [{ op := .compat, ver := a }] := by
+        simp only [Range.strClauses, htx, hmin, hmax, if_neg hab, himin, himax, hcf]; rfl
+      refine ⟨.range { min := some a, max := some nx, incMin := true, incMax := false,
+                       text := some { op := .compat, ver := a } }, ?_, ?_, ?_⟩
+      · simp only [Spec.str, hstr, parse_one_alt]
+        apply fss_single
+        simp [fromClause, hnx]
+      · simp [Spec.beq, Range.beq, hmin, hmax, himin, himax, rf, hev.1, hev.2]
+      · simp [Spec.beq, Range.beq, hmin, hmax, himin, himax, rf, hev.1, hev.2]
+    · apply range_roundtrip_plain_partial r h htx
+      intro c hcm
+      rcases r with ⟨mn, mx, imn, imx, t⟩
+      simp only at htx; subst htx
+      simp only [Range.strClauses] at hcm
+      cases mn with
+      | none => cases mx <;> simp at hcm <;> (try (subst hcm; cases imx <;> simp))
+      | some a =>
+        cases mx with
+        | none => simp at hcm; subst hcm; cases imn <;> simp
+        | some b =>
+          simp only at hcm
+          split at hcm
+          · simp at hcm; subst hcm; simp
+          · rename_i hab
+            split at hcm
+            · simp only [twoClauses, List.mem_cons, List.mem_nil_iff, or_false] at hcm
+              rcases hcm with rfl | rfl <;> (cases imn <;> cases imx <;> simp)
+            · rename_i hflags
+              split at hcm
+              · rename_i hcf
+                exfalso
+                apply hc
+                simp only [Bool.or_eq_true, Bool.not_eq_true', not_or, Bool.not_eq_false] at hflags
+                exact ⟨a, b, rfl, rfl, hab, hflags.1, by simpa using hflags.2, hcf⟩
+              · simp only [twoClauses, List.mem_cons, List.mem_nil_iff, or_false] at hcm
+                rcases hcm with rfl | rfl <;> (cases imn <;> cases imx <;> simp)
+
+/-! ### every rendering of a union -/
+
+theorem Range.WF_of_beq (x r : Range Ver) (hb : x.beq r = true) (hr : r.WF) : x.WF := by
+  have tr := @LinPre.le_trans Ver _
+  have tot := @LinPre.le_total Ver _
+  rcases x with ⟨xm, xM, xi, xj, xt⟩; rcases r with ⟨rm, rM, ri, rj, rt⟩
+  cases xm <;> cases rm <;> cases xM <;> cases rM <;>
+    simp [Range.beq, Range.WF, Range.ctorOk, lt, eqv] at hb hr ⊢ <;> grind
+
+theorem canon_of_beq_range (s : Spec Ver) (r : Range Ver) (hb : s.beq (.range r) = true) (hr : r.WF) : Canon s := by
+  cases s with
+  | empty => trivial
+  | any => trivial
+  | range x => exact Range.WF_of_beq x r (by simpa [Spec.beq] using hb) hr
+  | union _ _ => simp [Spec.beq] at hb
+
+def v0 : Ver := { release := [0] }
+
+/-- the `||` fold of `parse_version_specifier` over alternatives that each parse to a canonical
+    object: it never fails, the result is canonical and denotes the union of the cuts -/
+theorem fold_or (xs : List Alt) (hx : ∀ a ∈ xs, ∃ s, parseAlt a = some s ∧ Canon s) :
+    ∀ S0 : Spec Ver, Canon S0 → ∃ S,
+      xs.foldl (fun acc x => acc.bind fun s => (parseAlt x).bind fun t => s.or t) (some S0) = some S ∧ Canon S ∧
+      ∀ x n, S.memC x n ↔ (S0.memC x n ∨ ∃ a ∈ xs, ∃ s, parseAlt a = some s ∧ s.memC x n) := by
+  induction xs with
+  | nil => intro S0 h0; exact ⟨S0, rfl, h0, fun x n => by simp⟩
+  | cons a rest ih =>
+    intro S0 h0
+    obtain ⟨s, hs, cs⟩ := hx a (by simp)
+    obtain ⟨r, hr, cr, mr⟩ := or_memC S0 s h0 cs
+    obtain ⟨S, hS, cS, mS⟩ := ih (fun b hb => hx b (by simp [hb])) r cr
+    refine ⟨S, ?_, cS, ?_⟩
+    · simp only [List.foldl_cons, Option.bind_some, hs, hr]; exact hS
+    · intro x n
+      rw [mS, mr]
+      constructor
+      · rintro ((h | h) | ⟨b, hb, t, ht, hm⟩)
+        · exact Or.inl h
+        · exact Or.inr ⟨a, by simp, s, hs, h⟩
+        · exact Or.inr ⟨b, by simp [hb], t, ht, hm⟩
+      · rintro (h | ⟨b, hb, t, ht, hm⟩)
+        · exact Or.inl (Or.inl h)
+        · simp only [List.mem_cons] at hb
+          rcases hb with rfl | hb
+          · rw [hs] at ht; cases ht; exact Or.inl (Or.inr hm)
+          · exact Or.inr ⟨b, hb, t, ht, hm⟩
+
+/-- a union rendered as `||`-joined ranges re-parses to an equal union -/
+theorem alts_roundtrip (rs : List (Range Ver)) (t : Option (Clause Ver)) (hc : Canon (.union rs t))
+    (hr : ∀ r ∈ rs, TextOk r ∧ NoD4a r) :
+    ∃ S, parseAlts (SText.toAlts (.alts (rs.map Range.strClauses))) = some S ∧ S.beq (.union rs t) = true ∧
+      (Spec.union rs t).beq S = true := by
+  -- every member range round-trips on its own
+  have each : ∀ r ∈ rs, ∃ s, parseAlt (.clauses r.strClauses) = some s ∧ Canon s ∧ ∀ x n, s.memC x n ↔ r.memC x n := by
+    intro r hrm
+    obtain ⟨s, hs, hb, _⟩ := range_roundtrip r (hc.2.1 r hrm) (hr r hrm).1 (hr r hrm).2
+    simp only [Spec.str, parse_one_alt] at hs
+    refine ⟨s, hs, canon_of_beq_range s r hb (hc.2.1 r hrm), fun x n => ?_⟩
+    rw [← memC_range]; exact memC_of_beq s (.range r) hb x n
+  match rs, hc, hr, each with
+  | [], hc, _, _ => exact absurd hc.1 (by simp)
+  | r0 :: rest, hc, hr, each =>
+    obtain ⟨s0, hs0, c0, m0⟩ := each r0 (by simp)
+    obtain ⟨S, hS, cS, mS⟩ := fold_or (rest.map fun r => Alt.clauses r.strClauses)
+      (by
+        intro a ha
+        simp only [List.mem_map] at ha
+        obtain ⟨r, hrm, rfl⟩ := ha
+        obtain ⟨s, hs, cs, _⟩ := each r (by simp [hrm])
+        exact ⟨s, hs, cs⟩) s0 c0
+    have hparse : parseAlts (SText.toAlts (.alts ((r0 :: rest).map Range.strClauses))) = some S := by
+      simp only [SText.toAlts, List.map_cons, List.map_map, parseAlts, hs0]
+      exact hS
+    have hm : ∀ x n, S.memC x n ↔ (Spec.union (r0 :: rest) t).memC x n := by
+      intro x n
+      rw [mS, memC_union, m0]
+      constructor
+      · rintro (h | ⟨a, ha, s, hs, hm⟩)
+        · exact ⟨r0, by simp, h⟩
+        · simp only [List.mem_map] at ha
+          obtain ⟨r, hrm, rfl⟩ := ha
+          obtain ⟨s', hs', _, ms'⟩ := each r (by simp [hrm])
+          rw [hs'] at hs; cases hs
+          exact ⟨r, by simp [hrm], (ms' x n).1 hm⟩
+      · rintro ⟨r, hrm, hmem⟩
+        simp only [List.mem_cons] at hrm
+        rcases hrm with rfl | hrm
+        · exact Or.inl hmem
+        · obtain ⟨s', hs', _, ms'⟩ := each r (by simp [hrm])
+          exact Or.inr ⟨.clauses r.strClauses, by simp only [List.mem_map]; exact ⟨r, hrm, rfl⟩, s', hs', (ms' x n).2 hmem⟩
+    exact ⟨S, hparse, canon_unique v0 _ _ cS hc hm, canon_unique v0 _ _ hc cS (fun x n => (hm x n).symm)⟩
+
+theorem fss_single_union (c : Clause Ver) (ys : List (Range Ver)) (yt : Option (Clause Ver))
+    (h : fromClause c = some (.union ys yt)) : fromSpecifierSet [c] = some (.union ys yt) := by
+  simp [fromSpecifierSet, h, Spec.and, Range.isAny]
+
+/-- a cached union text, if any, parses back to the union -/
+def TextOkU (rs : List (Range Ver)) (t : Option (Clause Ver)) : Prop :=
+  ∀ c, t = some c → ∃ ys yt, fromClause c = some (.union ys yt) ∧ (Spec.union ys yt).beq (.union rs t) = true
+
+theorem union_roundtrip (rs : List (Range Ver)) (t : Option (Clause Ver)) (hc : Canon (.union rs t))
+    (hr : ∀ r ∈ rs, TextOk r ∧ NoD4a r) (hu : TextOkU rs t) : RoundTrips (.union rs t) := by
+  have rf := @LinPre.le_refl Ver _
+  have tot := @LinPre.le_total Ver _
+  unfold RoundTrips
+  cases hs : unionSimplified rs t with
+  | none =>
+    simp only [Spec.str, hs]
+    exact alts_roundtrip rs t hc hr
+  | some c =>
+    simp only [Spec.str, hs, parse_one_alt]
+    cases t with
+    | some c' =>
+      have : c = c' := by simp [unionSimplified] at hs; exact hs.symm
+      subst this
+      obtain ⟨ys, yt, hy, hb⟩ := hu c rfl
+      exact ⟨.union ys yt, fss_single_union c ys yt hy, hb, by rw [C16.beq_symm]; exact hb⟩
+    | none =>
+      unfold unionSimplified at hs
+      simp only at hs
+      split at hs
+      · rename_i left right
+        have hwl : left.WF := hc.2.1 left (by simp)
+        have hwr : right.WF := hc.2.1 right (by simp)
+        have hsep : sep left right := by
+          have := hc.2.2; simp only [List.pairwise_cons, List.mem_cons, List.mem_nil_iff, or_false, forall_eq] at this
+          exact this.1
+        split at hs
+        · rename_i lm rm hlmin hrmax hlmax hrmin
+          have hli : left.incMin = false := by
+            have := hwl.1; simp [Range.ctorOk, hlmin] at this; exact this.1
+          have hrj : right.incMax = false := by
+            have := hwr.1; simp [Range.ctorOk, hrmax] at this; exact this.2
+          split at hs
+          · -- `!= lm`
+            rename_i heq
+            simp only [Option.some.injEq] at hs; subst hs
+            have hex : left.incMax = false ∧ right.incMin = false := by
+              simp only [sep, hlmax, hrmin] at hsep
+              rcases hsep with h | h
+              · exact absurd heq.2 h
+              · exact h.2
+            refine ⟨.union [{ max := some lm, incMax := false }, { min := some lm, incMin := false }]
+                      (some { op := .ne, ver := lm }),
+                    fss_single_union _ _ _ (by simp [fromClause]), ?_, ?_⟩ <;>
+              simp [Spec.beq, Range.beq, hlmin, hrmax, hlmax, hrmin, hli, hrj, hex.1, hex.2, rf, heq.1, heq.2]
+          · rename_i hne
+            split at hs
+            · rename_i hflags
+              split at hs
+              · cases hs
+              · rename_i hsuf
+                simp only [Option.map_eq_some_iff] at hs
+                obtain ⟨p, hp, rfl⟩ := hs
+                simp only [Bool.or_eq_true, not_or, Bool.not_eq_true] at hsuf
+                have hfl : lm.isFinal = true := by
+                  rcases lm with ⟨e, r, pre, post, dev⟩
+                  cases pre <;> cases post <;> cases dev <;> simp_all [Ver.isFinal, Ver.isPrerelease, Ver.isPostrelease]
+                have hfr : rm.isFinal = true := by
+                  rcases rm with ⟨e, r, pre, post, dev⟩
+                  cases pre <;> cases post <;> cases dev <;> simp_all [Ver.isFinal, Ver.isPrerelease, Ver.isPostrelease]
+                obtain ⟨hleft, nx, hnx, hright⟩ := wild_render lm rm p hp hfl hfr
+                simp only [Bool.and_eq_true, Bool.not_eq_true'] at hflags
+                refine ⟨.union [{ max := some (Ver.releaseVersion p.epoch p.release), incMax := false },
+                               { min := some nx, incMin := true }] (some { op := .ne, ver := p, wild := true }),
+                        fss_single_union _ _ _ (by simp [fromClause, hnx]), ?_, ?_⟩ <;>
+                  simp [Spec.beq, Range.beq, hlmin, hrmax, hlmax, hrmin, hli, hrj, hflags.1, hflags.2,
+                    hleft.1, hleft.2, hright.1, hright.2]
+            · cases hs
+        · cases hs
+      · cases hs
+
+/-- **the property, for every canonical object** (cached texts right, no D4a rendering) -/
+theorem roundtrips (s : Spec Ver) (hc : Canon s)
+    (hr : ∀ r, (s = .range r ∨ ∃ rs t, s = .union rs t ∧ r ∈ rs) → TextOk r ∧ NoD4a r)
+    (hu : ∀ rs t, s = .union rs t → TextOkU rs t) : RoundTrips s := by
+  cases s with
+  | empty => exact empty_roundtrip
+  | any => exact any_roundtrip
+  | range r => exact range_roundtrip r hc (hr r (Or.inl rfl)).1 (hr r (Or.inl rfl)).2
+  | union rs t => exact union_roundtrip rs t hc (fun r hrm => hr r (Or.inr ⟨rs, t, rfl, hrm⟩)) (hu rs t rfl)
+
+/-- non-vacuity: `>=1.2,<2.0` built by the operators (no cached text) renders `~=1.2` and round-trips -/
+example : RoundTrips (.range { min := some { release := [1, 2] }, max := some { release := [2, 0] }, incMin := true }) :=
+  range_roundtrip _ (by decide) (by intro c h; cases h) (by intro _ mn mx h1 h2 _; cases h2; rfl)
 
 end C06
 end DepLogic
